@@ -122,6 +122,23 @@ class Contract:
         return []
 
 
+_SCRATCH = []
+
+
+def scratch_dir(prefix="verif_"):
+    """a fresh directory for files the native replay (or a precondition such as 'the file exists') needs; everything is
+    removed when the process ends, so no check leaves anything behind under the temp directory"""
+    import atexit
+    import shutil
+    import tempfile
+
+    if not _SCRATCH:
+        root = tempfile.mkdtemp(prefix="pyvc_scratch_")
+        _SCRATCH.append(root)
+        atexit.register(shutil.rmtree, root, True)
+    return tempfile.mkdtemp(prefix=prefix, dir=_SCRATCH[0])
+
+
 def register(c):
     inst = c() if isinstance(c, type) else c
     REGISTRY.append(inst)
